@@ -87,6 +87,33 @@ impl<'a> DM<'a> {
             self.d = d;
         }
     }
+    /// Duration::compose_f64: the sum of the seven float fields each times its unit, negated for a negative sign
+    pub fn compose_f64(&mut self, sign: i8, f: [f64; 7]) {
+        self.rec.episode();
+        let r = with_deadline(DEADLINE_S, move || Duration::compose_f64(sign, f[0], f[1], f[2], f[3], f[4], f[5], f[6]));
+        let res = match &r {
+            Some(Ok(d)) => jdur(*d),
+            Some(Err(m)) => jpanic(m),
+            None => "{\"hang\":true}".to_string(),
+        };
+        let fs: Vec<String> = f.iter().map(|x| jf64(*x)).collect();
+        self.rec.ev("compose_f64", format!("\"sign\":{},\"f\":[{}],\"res\":{}", sign, fs.join(","), res), true);
+        if let Some(Ok(d)) = r {
+            self.d = d;
+        }
+    }
+    /// Unit::in_seconds / from_seconds: the factor table as doubles
+    pub fn unit_consts(&mut self) {
+        self.rec.episode();
+        for u in UNITS {
+            let r = catch(|| (u.in_seconds(), u.from_seconds()));
+            let res = match r {
+                Ok((a, b)) => format!("{{\"in_s\":{},\"from_s\":{}}}", jf64(a), jf64(b)),
+                Err(m) => jpanic(&m),
+            };
+            self.rec.ev("unit_consts", format!("\"u\":{},\"res\":{}", unit_idx(u), res), true);
+        }
+    }
     pub fn to_unit(&mut self, u: Unit, secs_form: bool) {
         let a = self.d;
         let r = catch(|| if secs_form && u == Unit::Second { a.to_seconds() } else { a.to_unit(u) });
@@ -175,6 +202,26 @@ pub fn c18(rec: &mut Rec, lm: &Landmarks, rng: &mut Rng, thorough: bool) {
         let x = any_f64(rng);
         m.f64_unit(x, *rng.pick(&UNITS), (i % 4) as u8);
     }
+    // compose_f64: whole and fractional fields, both signs, landmark doubles in one slot
+    m.unit_consts();
+    let nc = if thorough { 30_000 } else { 1_500 };
+    for i in 0..nc {
+        let mut f = [0.0f64; 7];
+        for k in 0..7 {
+            f[k] = match rng.below(6) {
+                0 => 0.0,
+                1 => rng.below(1000) as f64,
+                2 => rng.below(100_000) as f64 / 100.0,
+                3 => rng.f64_unit() * 60.0,
+                4 => -(rng.below(50) as f64) / 4.0,
+                _ => rng.below(3) as f64,
+            };
+        }
+        if i % 9 == 0 {
+            f[(i / 9) % 7] = *rng.pick(&lms);
+        }
+        m.compose_f64(if i % 3 == 0 { -1 } else if i % 3 == 1 { 1 } else { 0 }, f);
+    }
     // Duration * f64, any duration, finite x
     let span = 100 * NPC as i128;
     let full = (i16::MAX as i128 + 1) * NPC as i128;
@@ -249,7 +296,20 @@ pub fn c18(rec: &mut Rec, lm: &Landmarks, rng: &mut Rng, thorough: bool) {
 
 // ------------------------------------------------------------------ C17
 
+pub const NVIEWS: usize = 38;
+pub const NFROM: usize = 24;
+
 impl<'a> EM<'a> {
+    /// Epoch::from_unix_duration: exact
+    pub fn from_unix_dur(&mut self, d: Duration) {
+        self.rec.episode();
+        let r = catch(|| Epoch::from_unix_duration(d));
+        let ok = r.clone().ok();
+        self.rec.ev("from_unix_dur", format!("\"d\":{},\"res\":{}", jdur(d), jres_epoch(&r)), true);
+        if let Some(e) = ok {
+            self.e = e;
+        }
+    }
     pub fn view_dur(&mut self, view: &str, to: TimeScale) {
         let a = self.e;
         let r = catch(|| match (view, to) {
@@ -265,7 +325,7 @@ impl<'a> EM<'a> {
     /// float-valued accessors; `which` selects the accessor, returns (view, scale, unit)
     pub fn view_f64(&mut self, which: usize) {
         let a = self.e;
-        let (view, to, u, r): (&str, TimeScale, Unit, Result<f64, String>) = match which % 26 {
+        let (view, to, u, r): (&str, TimeScale, Unit, Result<f64, String>) = match which % NVIEWS {
             0 => ("mjd", TimeScale::TAI, Unit::Day, catch(|| a.to_mjd_tai_days())),
             1 => ("mjd", TimeScale::TAI, Unit::Second, catch(|| a.to_mjd_tai_seconds())),
             2 => ("mjd", TimeScale::TAI, Unit::Hour, catch(|| a.to_mjd_tai(Unit::Hour))),
@@ -291,7 +351,19 @@ impl<'a> EM<'a> {
             22 => ("plain", TimeScale::TT, Unit::Second, catch(|| a.to_tt_seconds())),
             23 => ("plain", TimeScale::TT, Unit::Day, catch(|| a.to_tt_days())),
             24 => ("plain", TimeScale::GPST, Unit::Second, catch(|| a.to_gpst_seconds())),
-            _ => ("plain", TimeScale::GPST, Unit::Day, catch(|| a.to_gpst_days())),
+            25 => ("plain", TimeScale::GPST, Unit::Day, catch(|| a.to_gpst_days())),
+            26 => ("plain", TimeScale::QZSST, Unit::Second, catch(|| a.to_qzsst_seconds())),
+            27 => ("plain", TimeScale::QZSST, Unit::Day, catch(|| a.to_qzsst_days())),
+            28 => ("plain", TimeScale::GST, Unit::Second, catch(|| a.to_gst_seconds())),
+            29 => ("plain", TimeScale::GST, Unit::Day, catch(|| a.to_gst_days())),
+            30 => ("plain", TimeScale::BDT, Unit::Second, catch(|| a.to_bdt_seconds())),
+            31 => ("plain", TimeScale::BDT, Unit::Day, catch(|| a.to_bdt_days())),
+            32 => ("plain", TimeScale::TAI, Unit::Hour, catch(|| a.to_tai(Unit::Hour))),
+            33 => ("plain", TimeScale::TAI, Unit::Century, catch(|| a.to_tai(Unit::Century))),
+            34 => ("plain", TimeScale::UTC, Unit::Minute, catch(|| a.to_utc(Unit::Minute))),
+            35 => ("plain", TimeScale::UTC, Unit::Week, catch(|| a.to_utc(Unit::Week))),
+            36 => ("unix", TimeScale::UTC, Unit::Microsecond, catch(|| a.to_unix(Unit::Microsecond))),
+            _ => ("mjd", TimeScale::UTC, Unit::Week, catch(|| a.to_mjd_utc(Unit::Week))),
         };
         let res = match r {
             Ok(x) => jf64(x),
@@ -301,7 +373,7 @@ impl<'a> EM<'a> {
     }
     pub fn from_view(&mut self, which: usize, x: f64) {
         self.rec.episode();
-        let (view, ts, u, r): (&str, TimeScale, Unit, Result<Epoch, String>) = match which % 12 {
+        let (view, ts, u, r): (&str, TimeScale, Unit, Result<Epoch, String>) = match which % NFROM {
             0 => ("mjd", TimeScale::TAI, Unit::Day, catch(|| Epoch::from_mjd_tai(x))),
             1 => ("mjd", TimeScale::UTC, Unit::Day, catch(|| Epoch::from_mjd_utc(x))),
             2 => ("jde", TimeScale::TAI, Unit::Day, catch(|| Epoch::from_jde_tai(x))),
@@ -313,7 +385,19 @@ impl<'a> EM<'a> {
             8 => ("plain", TimeScale::UTC, Unit::Second, catch(|| Epoch::from_utc_seconds(x))),
             9 => ("plain", TimeScale::UTC, Unit::Day, catch(|| Epoch::from_utc_days(x))),
             10 => ("plain", TimeScale::TT, Unit::Second, catch(|| Epoch::from_tt_seconds(x))),
-            _ => ("plain", TimeScale::GPST, Unit::Second, catch(|| Epoch::from_gpst_seconds(x))),
+            11 => ("plain", TimeScale::GPST, Unit::Second, catch(|| Epoch::from_gpst_seconds(x))),
+            12 => ("plain", TimeScale::GPST, Unit::Day, catch(|| Epoch::from_gpst_days(x))),
+            13 => ("plain", TimeScale::QZSST, Unit::Second, catch(|| Epoch::from_qzsst_seconds(x))),
+            14 => ("plain", TimeScale::QZSST, Unit::Day, catch(|| Epoch::from_qzsst_days(x))),
+            15 => ("plain", TimeScale::GST, Unit::Second, catch(|| Epoch::from_gst_seconds(x))),
+            16 => ("plain", TimeScale::GST, Unit::Day, catch(|| Epoch::from_gst_days(x))),
+            17 => ("plain", TimeScale::BDT, Unit::Second, catch(|| Epoch::from_bdt_seconds(x))),
+            18 => ("plain", TimeScale::BDT, Unit::Day, catch(|| Epoch::from_bdt_days(x))),
+            19 => ("mjd", TimeScale::TT, Unit::Day, catch(|| Epoch::from_mjd_in_time_scale(x, TimeScale::TT))),
+            20 => ("jde", TimeScale::TT, Unit::Day, catch(|| Epoch::from_jde_in_time_scale(x, TimeScale::TT))),
+            21 => ("mjd", TimeScale::TAI, Unit::Day, catch(|| Epoch::from_mjd_in_time_scale(x, TimeScale::TAI))),
+            22 => ("jde", TimeScale::UTC, Unit::Day, catch(|| Epoch::from_jde_in_time_scale(x, TimeScale::UTC))),
+            _ => ("plain", TimeScale::TT, Unit::Second, catch(|| Epoch::from_tt_seconds(x))),
         };
         let ok = r.clone().ok();
         self.rec.ev(
@@ -348,7 +432,7 @@ pub fn c17(rec: &mut Rec, lm: &Landmarks, rng: &mut Rng, thorough: bool) {
         for v in [("jde", TimeScale::TAI), ("jde", TimeScale::UTC), ("jde", TimeScale::TT), ("mjd", TimeScale::TT), ("j2k", TimeScale::TT)] {
             m.view_dur(v.0, v.1);
         }
-        for w in 0..26 {
+        for w in 0..NVIEWS {
             m.view_f64(w);
         }
     }
@@ -358,7 +442,7 @@ pub fn c17(rec: &mut Rec, lm: &Landmarks, rng: &mut Rng, thorough: bool) {
         let v = if rng.chance(1, 3) { (rng.i128().rem_euclid(2 * span)) - span } else { elapsed_4digit(rng, ts) };
         m.eload_dur(ts, ns_dur(v));
         m.view_f64(i);
-        m.view_f64(rng.below(26) as usize);
+        m.view_f64(rng.below(NVIEWS as u64) as usize);
         if i % 4 == 0 {
             let v = *rng.pick(&[("jde", TimeScale::TAI), ("jde", TimeScale::UTC), ("jde", TimeScale::TT), ("mjd", TimeScale::TT), ("j2k", TimeScale::TT)]);
             m.view_dur(v.0, v.1);
@@ -367,15 +451,15 @@ pub fn c17(rec: &mut Rec, lm: &Landmarks, rng: &mut Rng, thorough: bool) {
     // constructors from JD / MJD / UNIX / plain float values, then the same view read back
     let nc = if thorough { 80_000 } else { 4_000 };
     for i in 0..nc {
-        let which = i % 12;
+        let which = i % NFROM;
         // a value of that view within +/- 10 000 years of 1900
         let days = rng.range_i64(-3_652_000, 3_652_000) as f64 + if rng.chance(1, 3) { 0.0 } else { rng.f64_unit() };
         let x = match which {
-            0 | 1 => days + 15_020.0,
-            2 | 3 => days + 2_415_020.5,
+            0 | 1 | 19 | 21 => days + 15_020.0,
+            2 | 3 | 20 | 22 => days + 2_415_020.5,
             4 => (days - 25_567.0) * 86_400.0,
             5 => (days - 25_567.0) * 86_400_000.0,
-            6 | 8 | 10 | 11 => days * 86_400.0,
+            6 | 8 | 10 | 11 | 13 | 15 | 17 | 23 => days * 86_400.0,
             _ => days,
         };
         let x = match i % 7 {
@@ -396,15 +480,38 @@ pub fn c17(rec: &mut Rec, lm: &Landmarks, rng: &mut Rng, thorough: bool) {
             7 => 19,
             8 => 20,
             9 => 21,
-            10 => 22,
-            _ => 24,
+            10 | 23 => 22,
+            11 => 24,
+            12 => 25,
+            13 => 26,
+            14 => 27,
+            15 => 28,
+            16 => 29,
+            17 => 30,
+            18 => 31,
+            19 => 12,
+            20 => 11,
+            21 => 0,
+            _ => 9,
         };
         m.view_f64(back);
     }
     for x in [0.0, 15_020.0, 51_544.5, 2_451_545.0, 2_415_020.5, -0.0, 1.0, 2_440_587.5, 40_587.0] {
-        for w in 0..12 {
+        for w in 0..NFROM {
             m.from_view(w, x);
         }
+    }
+    // from_unix_duration is exact: landmark and random durations, then the UNIX views read back
+    let nu = if thorough { 40_000 } else { 2_000 };
+    for i in 0..nu {
+        let v = match i % 4 {
+            0 => (rng.i128().rem_euclid(2 * span)) - span,
+            1 => rng.log_i128(66),
+            2 => *rng.pick(&g.leaps) - 25_567 * NS_DAY as i128 + rng.range_i64(-2, 2) as i128,
+            _ => rng.range_i64(0, 2_000_000_000) as i128 * NS_S as i128 + rng.below(3) as i128,
+        };
+        m.from_unix_dur(ns_dur(v));
+        m.view_f64(14 + (i % 4));
     }
 }
 
